@@ -50,6 +50,50 @@ type sep struct {
 	anyRecv   bool
 	dir       *refcodec.Dir // opens the frames this endpoint sends
 	sent      []sentFrame
+	// what the harness itself knows about unfinished messages on this endpoint (C15 oracle): inside
+	// StartMessageRead..EndMessageRead; bytes handed to WriteMessage and not yet put on the wire
+	inRead      bool
+	bufferedOut int
+}
+
+// fakeAddr is the remote address of a harness connection.
+type fakeAddr struct{ network, addr string }
+
+func (a fakeAddr) Network() string { return a.network }
+func (a fakeAddr) String() string  { return a.addr }
+
+// newWorldAddr: as newWorld, but the two connections have remote addresses (as real TCP
+// connections do), which NewStream records as the peer address in sinful form.
+func newWorldAddr() *sworld {
+	w := &sworld{pending: map[string][]byte{}}
+	mk := func(name, remote string) *sep {
+		c := bufconn.New()
+		c.Remote = fakeAddr{"tcp", remote}
+		return &sep{name: name, c: c, s: stream.NewStream(c), keyLine: -1}
+	}
+	w.a, w.b = mk("A", "192.0.2.7:9618"), mk("B", "198.51.100.23:41714")
+	w.log("new", "ok")
+	w.log("connaddr A "+hexOrDash([]byte("<192.0.2.7:9618>")), "ok")
+	w.log("connaddr B "+hexOrDash([]byte("<198.51.100.23:41714>")), "ok")
+	return w
+}
+
+func (w *sworld) setauth(n string, on bool) {
+	w.ep(n).s.SetAuthenticated(on)
+	w.log("setauth "+n+" "+b01(on), "ok")
+}
+
+func (w *sworld) setpeer(n string, addr string) {
+	w.ep(n).s.SetPeerAddr(addr)
+	w.log("setpeer "+n+" "+hexOrDash([]byte(addr)), "ok")
+}
+
+// ident: what the stream reports about the session's identity
+func (w *sworld) ident(n string) (bool, string) {
+	e := w.ep(n)
+	a, p := e.s.IsAuthenticated(), e.s.GetPeerAddr()
+	w.log("ident "+n, fmt.Sprintf("ok auth=%s peer=%s", b01(a), orc.ShowBytes([]byte(p))))
+	return a, p
 }
 
 type sworld struct {
@@ -274,6 +318,11 @@ func (w *sworld) write(n string, data []byte) error {
 		w.log(op, "err "+errClass(err))
 		return err
 	}
+	if len(e.c.Out) > 0 {
+		e.bufferedOut = 0 // the writer flushed: everything handed over so far is on the wire
+	} else {
+		e.bufferedOut += len(data)
+	}
 	w.log(op, strings.TrimRight("ok "+w.collect(e, enc, fin), " "))
 	return nil
 }
@@ -287,12 +336,14 @@ func (w *sworld) end(n string) error {
 		w.log("end "+n, "err "+errClass(err))
 		return err
 	}
+	e.bufferedOut = 0
 	w.log("end "+n, strings.TrimRight("ok "+w.collect(e, enc, fin), " "))
 	return nil
 }
 
 func (w *sworld) start(n string) {
 	w.ep(n).s.StartMessage()
+	w.ep(n).bufferedOut = 0
 	w.log("start "+n, "ok")
 }
 
@@ -501,6 +552,7 @@ func (w *sworld) startread(n string) error {
 		if err != nil {
 			w.log("startread "+n, "err "+errClass(err))
 		} else {
+			e.inRead = true
 			w.log("startread "+n, "ok")
 		}
 		return "", err
@@ -547,6 +599,7 @@ func (w *sworld) endread(n string) error {
 	if err != nil {
 		w.log("endread "+n, "err "+errClass(err))
 	} else {
+		e.inRead = false
 		w.log("endread "+n, "ok")
 	}
 	return err
@@ -632,16 +685,26 @@ func (w *sworld) export(n string) ([]byte, error) {
 }
 
 // importBlob rebuilds the endpoint's stream from a blob around the same connection.
-func (w *sworld) importBlob(n string, blob []byte) error {
+func (w *sworld) importBlob(n string, blob []byte) error { return w.importBlobAround(n, blob, "") }
+
+// importBlobAround: the connection the session is continued on reports `remote` as its remote address
+// (a hand-off passes the fd to another process, typically over a unix socket; what the new process's
+// conn reports need not be the peer). remote == "": leave the connection as it is, model not told.
+func (w *sworld) importBlobAround(n string, blob []byte, remote string) error {
 	e := w.ep(n)
 	w.patchKey(e)
-	s, err := stream.NewStreamWithCryptoState(e.c, blob)
 	op := "import " + n + " " + hexOrDash(blob)
+	if remote != "" {
+		e.c.Remote = fakeAddr{"unix", remote}
+		op += " " + hexOrDash([]byte("<"+remote+">"))
+	}
+	s, err := stream.NewStreamWithCryptoState(e.c, blob)
 	if err != nil {
 		w.log(op, "err "+errClass(err))
 		return err
 	}
 	e.s = s
+	e.inRead, e.bufferedOut = false, 0
 	e.finalized = true // an imported stream never feeds digests that matter again (see model)
 	if f, perr := parseBlob(blob); perr == nil {
 		e.key = append([]byte{}, f.key...)
